@@ -7,6 +7,7 @@ orderings and run-length spellings.
 """
 import collections
 import os
+import random
 import json
 import itertools
 
@@ -415,10 +416,55 @@ def check_other_process(ctx):
     ctx.count('groups_checked_in_another_interpreter', rep['n'])
 
 
+def check_threads(ctx, key=None, rounds=3):
+    """A group's name, hash and equality are functions of (centre, multiset):
+    groups constructed and parsed by four threads at once (each thread all
+    orderings and spellings) come out as when made alone."""
+    from vmon.core import threads as TH
+    from pgradd.GroupAdd.Group import Group
+    key = key or 'thr%d_%d' % (ctx.seed, ctx.shard)
+    r = random.Random('c19thr:%s' % key)
+    items = []
+    for _ in range(14):
+        cnt = collections.Counter(r.choice(PERIPH)
+                                  for _ in range(r.randint(1, 6)))
+        if r.random() < 0.3:
+            cnt[r.choice(PERIPH)] += r.choice([9, 10, 12])
+        centre = r.choice(CENTRES)
+        od = list(cnt.elements())
+        r.shuffle(od)
+        sp = spellings(orderings(cnt)[0]) if sum(cnt.values()) <= 6 else \
+            [''.join('(%s)%s' % (p, n if n > 1 else '')
+                     for p, n in sorted(cnt.items()))]
+        items.append((centre, od, centre + r.choice(list(sp))))
+
+    def make_jobs():
+        jobs = []
+        for k, (centre, od, text) in enumerate(items):
+            def ctor(centre=centre, od=od):
+                g = Group(None, centre, list(od))
+                return repr((str(g), g == Group(None, centre,
+                                                list(reversed(od))),
+                             hash(g) == hash(Group(None, centre,
+                                                   list(reversed(od))))))
+
+            def parse(text=text, centre=centre, od=od):
+                g = Group.parse(None, text)
+                return repr((str(g), g == Group(None, centre, list(od))))
+            jobs.append((('ctor', k), ctor))
+            jobs.append((('parse', k), parse))
+        return jobs
+    res = TH.stress(make_jobs, nthreads=4, rounds=rounds)
+    TH.judge(ctx, res, 'Group construction and parsing',
+             {'what': 'thread stress', 'key': key})
+
+
 def run_shard(ctx):
     i = 0
     if ctx.shard % 4 == 0:
         check_other_process(ctx)
+    if ctx.shard % 4 == 2:
+        check_threads(ctx)
     maxn = 4 if ctx.tier == 'quick' else 5
     for cnt in multisets(maxn):
         for centre in CENTRES:
@@ -451,6 +497,8 @@ def run_shard(ctx):
 
 
 def replay(ctx, case):
+    if case.get('what') == 'thread stress':
+        return check_threads(ctx, case['key'], rounds=12)
     if 'library_key' in case:
         check_library(ctx, case['library_key'])
     elif 'centre' in case:
